@@ -29,10 +29,11 @@ Model of `afm/read.go` (`afm.Read`), `afm/write.go` (`Metrics.Write`) and of the
   then by the highest code, then by name); a glyph's code is the first index of its name in the
   encoding; ligatures are written in key order (the stored order of the sorted list); `Version`
   and `Notice` only when not empty; `FamilyName`/`Weight` from `strings.Split(FullName, " ")`.
-  `FontBBox` needs the union of the glyph boxes in Go's random map order and `int(x)`:
-  `writeSupported` says whether the printed text is determined (no NaN box, no partial union that
-  is the zero box again, values finite and inside int64); the driver answers `unsupported`
-  otherwise.  `write` itself is total.
+  `FontBBox` is the union of the glyph boxes taken in ascending order of the glyph names
+  (`FontBBoxPDF` sorts the keys; `sortByName`), then `int(floor/ceil)`: `writeSupported` says
+  whether the printed text is determined (the four values finite and inside int64, Go's `int(x)`
+  being implementation-specific otherwise); the driver answers `unsupported` otherwise.  `write`
+  itself is total.
 * `read = readCore`.
 -/
 namespace PsVerif.Model.AFM
@@ -595,23 +596,16 @@ def Rect.extend (r other : Rect) : Rect :=
      if fLt r.urx other.urx then other.urx else r.urx,
      if fLt r.ury other.ury then other.ury else r.ury⟩
 
-/-- `FontBBoxPDF`, visiting the glyphs in the order of the association list -/
-def fontBBox (m : Metrics) : Rect := (m.glyphs.map (fun g => g.2.bbox)).foldl Rect.extend Rect.zero
+/-- the entries of a glyph map in ascending order of their names (bytewise order, Go's
+`sort.Strings` on the keys): every entry is put at its place in a sorted list.  For a list that is
+sorted already this is the identity; the names of a map are distinct. -/
+def sortByName {β : Type} (l : List (Bytes × β)) : List (Bytes × β) :=
+  l.foldl (fun acc e => upsert e.1 e.2 acc) []
 
-def Rect.hasNaN (r : Rect) : Bool :=
-  SoftFloat.isNaN r.llx || SoftFloat.isNaN r.lly || SoftFloat.isNaN r.urx || SoftFloat.isNaN r.ury
-
-/-- the rectangles that could take part in an accumulated all-zero box: `LL ≥ 0 ≥ UR` -/
-def Rect.inverted (r : Rect) : Bool :=
-  !fLt r.llx 0 && !fLt r.lly 0 && !fLt 0 r.urx && !fLt 0 r.ury
-
-/-- Go visits the map in random order; the result of `FontBBoxPDF` does not depend on the
-order unless a box has a NaN or a partial union can be the zero box again -/
-def fontBBoxDeterministic (m : Metrics) : Bool :=
-  let boxes := (m.glyphs.map (fun g => g.2.bbox)).filter (fun r => !r.isZero)
-  !boxes.any Rect.hasNaN &&
-    (let inv := boxes.filter Rect.inverted
-     inv = [] || !(inv.foldl Rect.extend Rect.zero).isZero)
+/-- `FontBBoxPDF`: the glyphs are visited in ascending order of their names, whatever the order of
+the association list (for degenerate boxes – NaN, inverted – the union depends on the order) -/
+def fontBBox (m : Metrics) : Rect :=
+  ((sortByName m.glyphs).map (fun g => g.2.bbox)).foldl Rect.extend Rect.zero
 
 /-- first index of `name` in the encoding (`-1`: none) -/
 def charCode (name : Bytes) : List Bytes → Nat → Int
@@ -685,11 +679,10 @@ def italicText (x : UInt64) : Bytes := (fmtShortest x).getD (fmt0 x)
 def write (m : Metrics) : Bytes := unlines (writeLinesWith m (italicText m.italicAngle))
 
 /-- is everything `Write` prints determined by the model? (`FontBBox` needs `int(x)` of finite
-values inside int64 and an order-independent union; `ItalicAngle` needs the digit search to
-succeed) -/
+values inside int64 – Go's result for NaN, ±Inf and larger values is implementation-specific;
+`ItalicAngle` needs the digit search to succeed) -/
 def writeSupported (m : Metrics) : Bool :=
   let bb := fontBBox m
-  fontBBoxDeterministic m &&
   (toInt64 (floorF bb.llx)).isSome && (toInt64 (floorF bb.lly)).isSome &&
   (toInt64 (ceilF bb.urx)).isSome && (toInt64 (ceilF bb.ury)).isSome &&
   (fmtShortest m.italicAngle).isSome
